@@ -38,6 +38,7 @@ def main():
                 print("   " + l[:400])
         print("SUMMARY", what, " ".join("%s=%s" % (k, {0: "silent", 1: "CAUGHT", 2: "inconclusive"}.get(v, v)) for k, v in results.items()))
     finally:
+        sh("rm -f %s/replays/*/found-*" % ROOT)
         sh("git -C /repo checkout -- . ")
         st = sh("git -C /repo status --porcelain --untracked-files=no", stdout=subprocess.PIPE).stdout.strip()
         if st:
